@@ -139,12 +139,13 @@ func runGate(op string) (out string) {
 	var res []string
 	closed := false
 	for i, f := range frames {
-		if closed {
+		if closed && !strings.HasPrefix(f, "V:") {
 			res = append(res, "closed")
 			continue
 		}
 		var b []byte
 		vb := v
+		compBefore, startupSent := cl.Compression, false
 		parts := strings.Split(f, ":")
 		if parts[0] == "V" { // the client goes on in another protocol version (no frame is sent)
 			x, _ := strconv.Atoi(parts[1])
@@ -174,7 +175,8 @@ func runGate(op string) (out string) {
 			b, _ = cl.Encode(int16(i+1), &message.Startup{Options: opts}, nil)
 			cl.Compression = save
 			if lc := strings.ToLower(parts[1]); lc == "lz4" || lc == "snappy" {
-				cl.Compression = lc // what a driver does after asking for a supported algorithm
+				cl.Compression = lc // what a driver does after asking for a supported algorithm …
+				startupSent = true
 			}
 		case "R":
 			var ts []primitive.EventType
@@ -216,6 +218,9 @@ func runGate(op string) (out string) {
 				c += "@wrong-stream"
 			}
 			got = append(got, c)
+		}
+		if startupSent && !(len(got) == 1 && got[0] == "ready") {
+			cl.Compression = compBefore // … and was answered READY: a STARTUP that was turned away changes nothing
 		}
 		switch {
 		case len(got) == 0 && closed:
